@@ -95,8 +95,15 @@ def sc_op_line(op):
     return 'T %s' % v_model_to_real(op[1], INV_MODEL_SC)
 
 
-def sc_replay_edges(chk, exe, edges, phases, mode='sc'):
-    """mode 'sc': a SystemClock (K = keepAlive()); 'scloop': a SystemClockLoop without reference clock (K = loop())"""
+def sc_replay_edges(chk, exe, edges, phases, mode='sc', setvia='T'):
+    """mode 'sc': a SystemClock (K = keepAlive()); 'scloop': a SystemClockLoop without reference clock (K = loop());
+    setvia: how the model's SetNow(v) is performed -- 'T' setNow(v), 'U' setup() with the backup clock reporting v, 'F'
+    forceSync() with a reference clock reporting v (all three are documented to set the clock to v)"""
+    vianame = {'T': '', 'U': ':via-setup', 'F': ':via-forceSync'}[setvia]
+
+    def opline(op):
+        ln = sc_op_line(op)
+        return setvia + ln[1:] if ln.startswith('T ') else ln
     init_keys = [key({'ms': p, 'epoch': INV_MODEL_SC, 'prev': 0, 'init': False, 'last': INV_MODEL_SC, 'bw': 0, 'bv': INV_MODEL_SC}) for p in phases]
     paths = paths_to_nodes(edges, init_keys)
     scripts = []
@@ -107,7 +114,7 @@ def sc_replay_edges(chk, exe, edges, phases, mode='sc'):
             raise common.MachineryError('SystemClock edge from unreachable node')
         seq = p + [e]
         phase = seq[0]['from']['ms']
-        scripts.append(('S @ID@ %d %d' % (BASES[n % len(BASES)], phase), [sc_op_line(x['op']) for x in seq]))
+        scripts.append(('S @ID@ %d %d%s' % (BASES[n % len(BASES)], phase, ' ref' if setvia == 'F' else ''), [opline(x['op']) for x in seq]))
         metas.append(seq)
     res, crashes = run_driver(exe, mode, scripts)
     for c in crashes:
@@ -124,8 +131,8 @@ def sc_replay_edges(chk, exe, edges, phases, mode='sc'):
                 st = ['-', '-'] + st[2:]
                 want = ['-', '-'] + want[2:]
             if st != want:
-                hist = ' ; '.join(sc_op_line(x['op']) for x in seq)
-                chk.violation('systemclock:edge:%s%s' % (e['op'][0], '' if mode == 'sc' else ':via-loop'), ('' if mode == 'sc' else 'SystemClockLoop without reference clock, K = loop(): ') + 'phase %d base %d: after [%s] the code is in %s, the model in %s ([epoch, prev, init, lastSync, backupWrites, backupVal, reading, requests to the backup clock])' % (
+                hist = ' ; '.join(opline(x['op']) for x in seq)
+                chk.violation('systemclock:edge:%s%s%s' % (e['op'][0], '' if mode == 'sc' else ':via-loop', vianame), ('' if mode == 'sc' else 'SystemClockLoop without reference clock, K = loop(): ') + 'phase %d base %d: after [%s] the code is in %s, the model in %s ([epoch, prev, init, lastSync, backupWrites, backupVal, reading, requests to the backup clock])' % (
                     seq[0]['from']['ms'], BASES[n % len(BASES)], hist, st, want), {'phase': seq[0]['from']['ms'], 'base': BASES[n % len(BASES)], 'ops': [x['op'] for x in seq]})
                 break
     return len(scripts), nsteps
